@@ -38,14 +38,16 @@ V(pred, sig, w) == [pred |-> pred, sig |-> sig, w |-> w, line |-> l, ev |-> E.ev
                     point |-> Get(E, "point", -1), origin |-> Get(E, "origin", ""), op |-> Get(E, "op", ""), src |-> Get(E, "src", -1)]
 
 -----------------------------------------------------------------------------
-\* rt: Act_ReloadEqualsLastSave (one violation per differing field: the field name is the signature), and the
-\* replaced-by-rename observation on the live directory
+\* rt: Act_ReloadEqualsLastSave (one violation per differing field: the field name is the signature; a public API call
+\* that panics on a cache loaded from a valid snapshot is a difference, too), and the replaced-by-rename observation on
+\* the live directory
 RtViolations ==
     LET diff == SetOf(E.diff)
         ex   == Get(E, "examples", <<>>)
     IN  (IF E.loaded THEN {} ELSE {V("Act_ReloadEqualsLastSave", "reload-failed", Get(E, "loaderr", ""))})
         \cup (IF E.loaded /\ ~ReloadEqual(E.loaded, diff)
               THEN {V("Act_ReloadEqualsLastSave", f, IF f \in DOMAIN ex THEN ex[f] ELSE "") : f \in diff} ELSE {})
+        \cup {V("Act_ReloadEqualsLastSave", "reloaded-cache-panics-in-" \o p.fn, p.msg) : p \in SetOf(Get(E, "api_panics", <<>>))}
         \cup (IF E.had_file /\ ~E.saveerr /\ ~E.ino_changed
               THEN {V("Act_OnlyRename", "cache-file-inode-unchanged-by-save", E.op)} ELSE {})
 
